@@ -9,11 +9,13 @@ git -C /repo worktree add -q "$wt" HEAD || exit 2
 cp /repo/gpytorch/version.py "$wt/gpytorch/" 2>/dev/null
 if ! git -C "$wt" apply "$(realpath "$d/patch.diff")"; then echo "PATCH-DOES-NOT-APPLY $d"; git -C /repo worktree remove --force "$wt"; exit 2; fi
 cd /verif
+cp evidence/$pid.json /tmp/evidence_$pid.bak 2>/dev/null
 VERIF_REPO="$wt" timeout 3000 ./check "$pid" --tier "$tier" > "$d/check_output.txt" 2>&1
 rc=$?
 grep -E "^VIOLATION|^KNOWN-FINDING|tier=" "$d/check_output.txt" | cut -c1-300
 echo "seeded=$d property=$pid rc=$rc"
 git -C /repo worktree remove --force "$wt"
+cp /tmp/evidence_$pid.bak /verif/evidence/$pid.json 2>/dev/null
 # restore generated files to the unchanged tree's version
 /venv/bin/python /verif/harness/regen.py "$pid" >/dev/null 2>&1
 exit 0
